@@ -216,7 +216,9 @@ def run(ctx):
         except ImportError:
             pass
     if conv is not None:
-        ctx.coverage["conversion_model_tie"] = {k: conv[k] for k in ("evaluations", "soft", "accepted_by_c", "distribution") if k in conv}
+        ctx.coverage["conversion_model_tie"] = {k: conv[k] for k in ("evaluations", "soft", "accepted_by_c", "distribution", "bound_checked", "bound_exceeded", "bound_examples_pinned") if k in conv}
+        if conv.get("bound_exceeded"):
+            viol.append({"input": str(conv.get("bound_samples", ""))[:4000], "kind": "output-exceeds-proved-bound", "clauses": ["output longer than the proved polynomial bound (C01c_output_size_cubic)"], "answer": str(conv.get("bound_exceeded"))})
         ctx.coverage["conversion_model_tie"]["disagreements"] = len(conv.get("disagreements", []))
         for c in (conv.get("crashes") or [])[:3]:
             viol.append({"input": str(c.get("input", c))[:4000], "kind": "conversion-tie-crash", "clauses": ["crash / sanitizer report in wbxml_conv_wbxml2xml_run"], "answer": str(c)[:1500]})
